@@ -419,6 +419,10 @@ impl<'a> Tr<'a> {
                     let fs: Vec<FnInfo> = self.find_fns(None, &segs[0]).into_iter().filter(|f| !local_def || f.file == self.cur_file).collect();
                     return Ok(if fs.len() == 1 { Some((fs[0].clone(), None)) } else { None });
                 }
+                if let Some((f, vals)) = self.trait_static_target(&p.path, env, e)? {
+                    *self.assoc_override.borrow_mut() = Some((f.key.clone(), vals));
+                    return Ok(Some((f, None)));
+                }
                 if segs.len() == 2 || segs.len() == 3 {
                     let tn = if segs.len() == 3 && self.t.adts.contains_key(&format!("{}.{}", segs[0], segs[1])) { format!("{}.{}", segs[0], segs[1]) } else { self.resolve_type_name(&segs[segs.len() - 2]) };
                     let segs = vec![tn.clone(), segs[segs.len() - 1].clone()];
